@@ -3,13 +3,17 @@
 // Draft contracts (C06) for the deductive verifier in /verif (kvc). Comment-only: this file adds no code.
 package scheduling
 
+// c6claimOK: a NodeClaim as the scheduler hands it out: requirement set and catalog entries well-formed
+// (what the C12 / C19 contracts of Requirements.Get, Requirements.Add, OrderByPrice and IsCompatible need).
+//@ pure c6claimOK(nc *NodeClaim) bool = nc != nil && nc.Requirements != nil && scheduling.rsInv(nc.Requirements) && cloudprovider.itsOK(nc.InstanceTypeOptions) && cloudprovider.c6itsReqOK(nc.InstanceTypeOptions)
+
 //@ func (*NodeClaim).RemoveInstanceTypeOptionsByPriceAndMinValues
 //@   prop C06
-//@   requires n != nil
-//@   modifies *
+//@   requires [wf] c6claimOK(n) && scheduling.rsInv(reqs)
+//@   modifies n.InstanceTypeOptions
 //@   site (Offerings).Available requires [pricedFromOwnOfferings] $0 == it.Offerings
-//@   site (Offerings).WorstLaunchPrice requires [worstCaseOverAvailableUnderReqs] $0 == (@(Offerings).Available) && $1 == reqs
-//@   site (InstanceTypes).SatisfiesMinValues requires [nothingAdded] forall k int {$0[k]} :: (0 <= k && k < len($0)) ==> (exists j int {old(n.InstanceTypeOptions)[j]} :: 0 <= j && j < len(old(n.InstanceTypeOptions)) && old(n.InstanceTypeOptions)[j] == $0[k])
 //@   site (InstanceTypes).SatisfiesMinValues requires [floorsCheckedOnKeptTypes] $0 == n.InstanceTypeOptions && $1 == reqs
+//@   ensures [nothingAdded] forall k int {n.InstanceTypeOptions[k]} :: (0 <= k && k < len(n.InstanceTypeOptions)) ==> (exists j int {old(n.InstanceTypeOptions)[j]} :: 0 <= j && j < len(old(n.InstanceTypeOptions)) && old(n.InstanceTypeOptions)[j] == n.InstanceTypeOptions[k])
 //@   ensures [minValuesViolationIsAnError] result.1 == (@(InstanceTypes).SatisfiesMinValues).2
 //@   ensures [sameClaimOrNone] (result.1 == nil ==> result.0 == n) && (result.1 != nil ==> result.0 == nil)
+//@   ensures [wfKept] c6claimOK(n)
